@@ -33,20 +33,18 @@ Theorem C17_jump_ignored : forall s id i tg c src,
   get_stage s i = Some src -> w_canceled s = true -> h_commits (handle_jump s id i tg c) = [[OMark id]].
 Proof. intros s id i tg c src H Hc. unfold handle_jump. rewrite H, Hc. reflexivity. Qed.
 
-(* CancelStage goes to every unfinished TOP-LEVEL stage (synthetic children are reached only through their parent's
-   completion messages and the is_canceled check of RunTask) *)
+(* CancelStage goes to EVERY unfinished stage, synthetic (before / after) stages included *)
 Theorem C17_cancel_fans_out : forall s id,
   is_complete (w_status s) = false ->
   h_commits (handle_cancel_workflow s id) =
     [[OCancelFlag]; [OMark id] ++ c_pushes (map MCancelStage (incomplete_stages s)) ++ [OPush (MCompleteWorkflow 0)] ++ []]
-  /\ forall i st, get_stage s i = Some st -> is_complete (s_status st) = false -> is_top_level st = true ->
-       In i (incomplete_stages s).
+  /\ forall i st, get_stage s i = Some st -> is_complete (s_status st) = false -> In i (incomplete_stages s).
 Proof.
   intros s id H. split; [unfold handle_cancel_workflow; rewrite H; reflexivity|].
-  intros i st Hs Hc Ht. unfold incomplete_stages. apply filter_In. split.
+  intros i st Hs Hc. unfold incomplete_stages. apply filter_In. split.
   - unfold seqn. apply in_seq. split; [apply Nat.le_0_l|]. simpl. unfold get_stage in Hs.
     apply nth_error_Some. rewrite Hs. discriminate.
-  - rewrite Hs, Hc, Ht. reflexivity.
+  - rewrite Hs, Hc. reflexivity.
 Qed.
 
 Theorem C17_cancel_stage_effect : forall s id i st,
